@@ -1,12 +1,26 @@
 #!/usr/bin/env bash
-# usage: run_mutant.sh <patch.diff> <check...>   -- applies the patch to /repo, runs the checks (quick), reverts.
+# usage: run_mutant.sh <patch.diff> <check...>
+# Harness maintenance: runs the checks against a deliberate defect.
+#   default     : a scratch worktree of /repo HEAD under /var/tmp carries the patch and the checks read it
+#                 through VERIF_REPO, so /repo stays untouched and other runs are not disturbed
+#   INPLACE=1   : applies the patch to /repo itself, runs the checks, reverts (the registered commands'
+#                 own path; nothing else may be running)
+# SEEDS="1 2 3" TIER=quick|thorough MAXL=<lines shown per run>
 set -u
-patch=$1; shift
-cd /repo || exit 2
-if [ -n "$(git status --porcelain)" ]; then echo "repo not clean"; exit 2; fi
-git apply "$patch" || { echo "patch does not apply"; exit 2; }
-trap 'git -C /repo checkout -- . ; git -C /repo clean -fdq -- . ' EXIT
-cd /verif
+patch=$(readlink -f "$1"); shift
+if [ -n "${INPLACE:-}" ]; then
+  cd /repo || exit 2
+  if [ -n "$(git status --porcelain)" ]; then echo "repo not clean"; exit 2; fi
+  git apply "$patch" || { echo "patch does not apply"; exit 2; }
+  trap 'git -C /repo checkout -- . ; git -C /repo clean -fdq -- . ' EXIT
+else
+  wt=/var/tmp/mutrepo.$$
+  git -C /repo worktree add -q --detach "$wt" HEAD || exit 2
+  trap 'git -C /repo worktree remove --force "$wt"' EXIT
+  git -C "$wt" apply "$patch" || { echo "patch does not apply"; exit 2; }
+  export VERIF_REPO="$wt"
+fi
+cd "$(dirname "$(readlink -f "$0")")"
 for c in "$@"; do
   for seed in ${SEEDS:-1}; do
     out=$(VERIF_SEED=$seed ./check.sh $c ${TIER:-quick} 2>&1); rc=$?
